@@ -41,6 +41,7 @@ def rows_for(s, rng, quick):
         # odd numbers of symbols per row: per-row memory must restart at every row, whatever the parity of the row length
         rows.append(("2d", [grp(rng.randrange(M)) + grp(rng.randrange(M)) + grp(rng.randrange(M)) for _ in range(6)]))
         rows.append(("2d", [[rng.randrange(2) for _ in range(b * 5)] for _ in range(4)]))
+        rows.append(("2d", [[rng.randrange(2) for _ in range(b * 6)]]))                 # a batch of one row
         if s.kind != "dpsk":        # a differential demodulator needs two symbols per row: rejecting a single one is its documented start-up behaviour
             rows.append(("2d", [grp(rng.randrange(M)) for _ in range(5)]))              # one symbol per row
         rows.append(("1d", [[rng.randrange(2) for _ in range(b * 8)]]))
